@@ -353,10 +353,13 @@ class Observer:
         self.listening: dict = {}
         self.violations: list = []    # (label, tag, info)
         self.slow_listener = False    # the message listener suspends once (a manager awaiting something)
+        self.slow_states = False      # the state listener suspends once
         self.on_message_hook = None
 
-        def on_state(ev):
+        async def on_state(ev):
             self.state_report(ev.connection, ev.state)
+            if self.slow_states:
+                await asyncio.sleep(0)       # a manager's state listener that awaits something
 
         async def on_msg(ev):
             self.message(ev.connection, ev.message)
